@@ -6,7 +6,7 @@ import gen
 PRE_KINDS = ["pre_detach", "pre_attach", "pre_detach_children", "pre_attach_children"]
 POST_KINDS = ["post_detach", "post_attach", "post_detach_children", "post_attach_children"]
 ALL_KINDS = PRE_KINDS + POST_KINDS
-NM_CLASSES = ["mixin", "node", "anynode", "symlink", "eqmixin"]
+NM_CLASSES = ["mixin", "node", "anynode", "symlink", "eqmixin", "falsynode", "lenany"]
 
 
 # ----------------------------------------------------------------------------------------------
@@ -44,7 +44,7 @@ def forest_states(k):
 def all_calls(k, maxlen, nonnode=True):
     """every structural call over nodes 0..k-1 (children sequences up to maxlen)"""
     calls = []
-    targets = [None] + list(range(k)) + (["x"] if nonnode else [])
+    targets = [None] + list(range(k)) + (["x", "y"] if nonnode else [])      # "y": a falsy non-node object
     for n in range(k):
         for v in targets:
             calls.append({"op": "sp", "n": n, "v": v})
@@ -61,8 +61,18 @@ def all_calls(k, maxlen, nonnode=True):
         calls.append({"op": "ctor", "p": p, "cs": "x"})
         for L in (1, 2):
             for xs in itertools.product(list(range(k)), repeat=L):
-                calls.append({"op": "ctor", "p": p, "cs": list(xs)})
+                calls.append({"op": "ctor", "p": p, "cs": list(xs), "as": ["list", "tuple", "iter", "gen"][len(calls) % 4]})
     return calls
+
+
+def has_nonnode(call):
+    """does the call pass a non-node object ("x", or the falsy "y") anywhere?"""
+    vals = [call.get("v"), call.get("p")]
+    for key in ("xs", "cs"):
+        v = call.get(key)
+        if isinstance(v, list):
+            vals.extend(v)
+    return any(v in ("x", "y") for v in vals)
 
 
 def random_call(rng, k, nonnode=True):
@@ -74,7 +84,7 @@ def random_call(rng, k, nonnode=True):
         if x < 0.12:
             return None
         if nonnode and x < 0.17:
-            return "x"
+            return "x" if x < 0.15 else "y"
         return rng.choice(nodes)
 
     if r < 0.45:
@@ -93,7 +103,7 @@ def random_call(rng, k, nonnode=True):
         return {"op": "dc", "n": rng.choice(nodes)}
     cs = rng.choice([None, None, [], "x" if rng.random() < 0.2 else None,
                      [rng.choice(nodes)], [rng.choice(nodes), rng.choice(nodes)]])
-    return {"op": "ctor", "p": tgt(), "cs": cs}
+    return {"op": "ctor", "p": tgt(), "cs": cs, "as": rng.choice(["list", "list", "tuple", "iter", "gen"])}
 
 
 def random_history(rng, k, length, nonnode=True):
